@@ -342,7 +342,7 @@ func c09(c *Ctx) {
 				continue
 			}
 			for _, call := range callsIn(fn) {
-				if staticCallee(call) == dm {
+				if cal := staticCallee(call); cal != nil && (cal == dm || (dm != nil && cal.Origin() == dm)) {
 					ok := inReset[fn]
 					guarded := false
 					for _, cd := range condsFor(call.Block()) {
@@ -367,6 +367,11 @@ func c09(c *Ctx) {
 						}
 						if isAgg {
 							okSite := fn.Signature.Recv() != nil && (fn.Name() == "Delete" || fn.Name() == "DeleteChild") && fnPkgPath(fn) == Mod
+							// ... or inside deleteMetric itself (written over the maps directly, e.g. as a generic function):
+							// its callers are held to "only in Reset, under isExpired" above
+							if dm != nil && (fn == dm || fn.Origin() == dm) {
+								okSite = true
+							}
 							r.Check("builtin-delete:"+FuncName(fn), okSite, call.Pos(), "delete() on an aggregate map only inside the Delete/DeleteChild methods of the collection types")
 						}
 					}
@@ -388,7 +393,35 @@ func c09(c *Ctx) {
 			}
 		}
 		if dc == nil || hc == nil || dl == nil {
-			r.Fail("deleteMetric:shape", dm.Pos(), "deleteMetric must call DeleteChild, HasChildren and Delete")
+			// the same written over the maps directly: byTags := m[key]; delete(byTags, tagsKey); if len(byTags) == 0 { delete(m, key) }
+			var inner, outer ssa.CallInstruction
+			for _, call := range callsTo(dm, "builtin delete") {
+				a := call.Common().Args
+				if lk, ok := a[0].(*ssa.Lookup); ok && paramIndex(dm, lk.X) == 2 && paramIndex(dm, lk.Index) == 0 && paramIndex(dm, a[1]) == 1 {
+					inner = call
+				} else if paramIndex(dm, a[0]) == 2 && paramIndex(dm, a[1]) == 0 {
+					outer = call
+				}
+			}
+			okDirect := inner != nil && outer != nil && len(callsTo(dm, "builtin delete")) == 2 && instrDominates(inner, outer)
+			if okDirect {
+				isLenOfChildren := func(v ssa.Value) bool {
+					cl, ok := v.(*ssa.Call)
+					if !ok || !isCall(cl, "builtin len") {
+						return false
+					}
+					lk, ok := cl.Call.Args[0].(*ssa.Lookup)
+					return ok && paramIndex(dm, lk.X) == 2 && paramIndex(dm, lk.Index) == 0
+				}
+				okDirect = cmpHolds(factsAt(outer.Block()), isLenOfChildren, func(v ssa.Value) bool { k, ok := constInt(v); return ok && k == 0 }, token.EQL)
+			}
+			if !okDirect {
+				r.Fail("deleteMetric:shape", dm.Pos(), "deleteMetric must call DeleteChild, HasChildren and Delete (or delete the series from m[key] and then m[key] itself only when it has become empty)")
+				return
+			}
+			r.Check("deleteMetric:child-keys", true, inner.Pos(), "delete(m[key], tagsKey) with the function's own key parameters")
+			r.Check("deleteMetric:order", true, outer.Pos(), "the series is removed before the name is tested for being empty")
+			r.Check("deleteMetric:parent-only-when-empty", true, outer.Pos(), "delete(m, key) only under len(m[key]) == 0")
 			return
 		}
 		kI, tI, _ := deleteMetricRoles(w)
